@@ -368,7 +368,7 @@ func (fr *frame) enterLoop(h *ssa.BasicBlock, edges []edgeState, ord int) (*Stat
 			}
 		}
 	}
-	if len(invs) == 0 && !vc.dry {
+	if len(invs) == 0 && !vc.dry && !vc.eng.sweep {
 		vc.errorf("loop %d of %s has no invariant", ord, funcKey(fr.fn))
 	}
 	// entry values of the header phis
